@@ -10,8 +10,15 @@ import (
 	"context"
 	"crypto/ecdsa"
 	"encoding/json"
+	"go/ast"
+	"go/parser"
+	"go/token"
 	"log/slog"
 	"math/big"
+	"os"
+	"path/filepath"
+	"strconv"
+	"strings"
 	"sync"
 	"sync/atomic"
 	"testing"
@@ -20,6 +27,7 @@ import (
 	"github.com/ethereum/go-ethereum/common"
 	"github.com/ethereum/go-ethereum/core/types"
 	"github.com/ethereum/go-ethereum/crypto"
+	"github.com/libp2p/go-libp2p/core/network"
 	"github.com/libp2p/go-libp2p/core/peer"
 	"github.com/primevprotocol/mev-commit/pkg/p2p"
 	"github.com/prometheus/client_golang/prometheus"
@@ -33,6 +41,9 @@ type c20In struct {
 	FirstAfter  int    `json:"first_after_us"` // pause between Connect returning and the first stream
 	ServerRole  int    `json:"server_role"`
 	ClientRole  int    `json:"client_role"`
+	// the transport connection already exists and was dialed by the responder (AutoNAT dial-back,
+	// simultaneous connect, any earlier libp2p-level dial): Connect runs the handshake over it
+	ResponderDials bool `json:"responder_dials,omitempty"`
 }
 type c20Obs struct {
 	ConnectOK    bool `json:"connect_ok"`
@@ -128,13 +139,21 @@ func c20Run(t *testing.T, in c20In, rng *vrng) (obs c20Obs) {
 	}}
 	server.AddStreamHandlers(desc)
 	info, _ := (&peer.AddrInfo{ID: server.host.ID(), Addrs: server.host.Addrs()}).MarshalJSON()
+	ctx, cancel := context.WithTimeout(context.Background(), 5*time.Second+time.Duration(in.DelayMs)*time.Millisecond)
+	defer cancel()
+	if in.ResponderDials {
+		if err := server.host.Connect(ctx, peer.AddrInfo{ID: client.host.ID(), Addrs: client.host.Addrs()}); err != nil {
+			t.Fatal(err)
+		}
+		for i := 0; i < 400 && client.host.Network().Connectedness(server.host.ID()) != network.Connected; i++ {
+			time.Sleep(5 * time.Millisecond)
+		}
+	}
 	if in.Gated {
 		sks.mu.Lock()
 		sks.armed, sks.gate, sks.hit = true, make(chan struct{}), make(chan struct{})
 		sks.mu.Unlock()
 	}
-	ctx, cancel := context.WithTimeout(context.Background(), 5*time.Second)
-	defer cancel()
 	sp, err := client.Connect(ctx, info)
 	obs.ConnectOK = err == nil
 	if err != nil {
@@ -176,6 +195,90 @@ func c20Run(t *testing.T, in c20In, rng *vrng) (obs c20Obs) {
 	return obs
 }
 
+// c20Timers lists the real-time bounds (time.After, NewTimer, AfterFunc, Tick, NewTicker,
+// context.WithTimeout) written in the package's non-test sources, in milliseconds (0: not a
+// literal).  "However slowly the responder completes its side" cannot be sampled for every
+// delay; what can be done is to hold the responder past every bound the source mentions, so that
+// an expiry path, if there is one, is the path taken.  The unchanged tree has none.
+func c20Timers() []int {
+	var out []int
+	units := map[string]int{"Millisecond": 1, "Second": 1000, "Minute": 60000, "Hour": 3600000}
+	var eval func(e ast.Expr) int
+	eval = func(e ast.Expr) int {
+		switch x := e.(type) {
+		case *ast.ParenExpr:
+			return eval(x.X)
+		case *ast.BasicLit:
+			n, err := strconv.Atoi(x.Value)
+			if err != nil {
+				return 0
+			}
+			return -n // bare number: a factor
+		case *ast.SelectorExpr:
+			if id, ok := x.X.(*ast.Ident); ok && id.Name == "time" {
+				return units[x.Sel.Name]
+			}
+		case *ast.BinaryExpr:
+			if x.Op == token.MUL {
+				a, b := eval(x.X), eval(x.Y)
+				if a < 0 && b > 0 {
+					return -a * b
+				}
+				if b < 0 && a > 0 {
+					return a * -b
+				}
+			}
+		}
+		return 0
+	}
+	files, _ := filepath.Glob("*.go")
+	more, _ := filepath.Glob("internal/*/*.go")
+	for _, f := range append(files, more...) {
+		if strings.HasSuffix(f, "_test.go") {
+			continue
+		}
+		src, err := os.ReadFile(f)
+		if err != nil {
+			continue
+		}
+		af, err := parser.ParseFile(token.NewFileSet(), f, src, 0)
+		if err != nil {
+			continue
+		}
+		ast.Inspect(af, func(n ast.Node) bool {
+			call, ok := n.(*ast.CallExpr)
+			if !ok {
+				return true
+			}
+			sel, ok := call.Fun.(*ast.SelectorExpr)
+			if !ok {
+				return true
+			}
+			pkg, _ := sel.X.(*ast.Ident)
+			if pkg == nil {
+				return true
+			}
+			var arg ast.Expr
+			switch {
+			case pkg.Name == "time" && (sel.Sel.Name == "After" || sel.Sel.Name == "NewTimer" || sel.Sel.Name == "AfterFunc" ||
+				sel.Sel.Name == "Tick" || sel.Sel.Name == "NewTicker") && len(call.Args) >= 1:
+				arg = call.Args[0]
+			case pkg.Name == "context" && sel.Sel.Name == "WithTimeout" && len(call.Args) == 2:
+				arg = call.Args[1]
+			default:
+				return true
+			}
+			d := eval(arg)
+			if d < 0 {
+				d = 0
+			}
+			out = append(out, d)
+			return true
+		})
+	}
+	return out
+}
+
 func TestVerifC20(t *testing.T) {
 	out := newVout(t, "C20")
 	defer out.close()
@@ -198,6 +301,29 @@ func TestVerifC20(t *testing.T) {
 		r := roles[i%len(roles)]
 		in := c20In{Tag: "gated", Gated: true, DelayMs: d, Streams: 1 + i%3, ServerRole: r[0], ClientRole: r[1]}
 		out.emit(in, c20Run(t, in, rng))
+	}
+	// the same with a transport connection the responder dialed
+	for i, d := range delays {
+		if i%2 == 1 && !vthorough() {
+			continue
+		}
+		r := roles[(i+1)%len(roles)]
+		in := c20In{Tag: "gated-responder-dialed", Gated: true, DelayMs: d, Streams: 1 + i%2, ServerRole: r[0], ClientRole: r[1], ResponderDials: true}
+		out.emit(in, c20Run(t, in, rng))
+	}
+	// past every real-time bound the package's source mentions (none on the unchanged tree)
+	for _, ms := range c20Timers() {
+		d := ms + 800
+		if ms == 0 {
+			d = 6000
+		}
+		if d > 25000 {
+			continue
+		}
+		for _, rd := range []bool{false, true} {
+			in := c20In{Tag: "gated-past-timer", Gated: true, DelayMs: d, Streams: 1, ServerRole: 1, ClientRole: 2, ResponderDials: rd}
+			out.emit(in, c20Run(t, in, rng))
+		}
 	}
 	for i := 0; i < vcount(6, 60); i++ {
 		r := roles[rng.intn(len(roles))]
